@@ -69,7 +69,7 @@ func RunC09(tier string, args []string) int {
 	extraDoc := world.SimpleCRL(c.p.CA, 1, 987654).DER()
 	run := func(disk bool, fault string, arm func(w *CW) func(), probeListed bool, extras bool) {
 		evals++
-		var v Verdict
+		var v, again Verdict
 		hit := false
 		res := seqWorld(func() {
 			w := NewCW(CWOpt{Disk: disk, SigMode: config.SignatureValidationModeVerify})
@@ -116,6 +116,8 @@ func RunC09(tier string, args []string) int {
 			}
 			v = w.Lookup(pr, c.chain(pr))
 			hit = c09Hit
+			// the fault is still there: asking again must not turn the failure into an answer either
+			again = w.Lookup(pr, c.chain(pr))
 			disarm()
 			w.Chk.Cleanup()
 		})
@@ -139,6 +141,16 @@ func RunC09(tier string, args []string) int {
 		}
 		if v.Panic != "" {
 			chk.Violation("C09|panic|"+stripAt(fault)+"|"+be(disk), fmt.Sprintf("lookup panicked under storage fault %s (%s probe, %s): %s", fault, which, be(disk), v.Panic), map[string]interface{}{"fault": fault, "disk": disk, "listed": probeListed})
+			return
+		}
+		if v.Err != "" && again.Panic == "" && again.Err == "" && !again.Revoked {
+			chk.Violation("C09|fault-answered-not-revoked-on-second-lookup|"+stripAt(fault)+"|"+be(disk),
+				fmt.Sprintf("storage fault %s (%s backend): the first lookup of the %s certificate reported the error, the next one - fault still present - answered 'not revoked'", fault, be(disk), which),
+				map[string]interface{}{"fault": fault, "disk": disk, "listed": probeListed})
+			return
+		}
+		if again.Panic != "" {
+			chk.Violation("C09|panic|"+stripAt(fault)+"|"+be(disk), fmt.Sprintf("second lookup panicked under storage fault %s (%s probe, %s): %s", fault, which, be(disk), again.Panic), nil)
 			return
 		}
 		if v.Err == "" {
